@@ -20,15 +20,62 @@ def gen_cases(seed, tier, n):
     out = []
     profs = ["loader_mix", "steps_mix", "fifo_steps", "steps_mix", "fifo_tiny", "loader_mix", "steps_mix", "fifo_steps", "steps_mix", "fifo_tiny", "loader_pad"]
     for i in range(n):
-        c = tracegen.gen_case(seed, i, tracegen.PROFILES[profs[i % len(profs)]])
+        if i % 9 == 8:
+            # clock skew: device activities stamped up to 3 units BEFORE their launch call (the pairing is by id alone)
+            from dataclasses import replace as _replace
+            c = tracegen.gen_case(seed, i, _replace(tracegen.PROFILES["fifo_steps"], name="fifo_steps+skew", kernel_causal=False, p_same_ts_as_launch=0.6))
+        else:
+            c = tracegen.gen_case(seed, i, tracegen.PROFILES[profs[i % len(profs)]])
         rng = random.Random(seed * 7919 + i)
         c["params"] = {"include_last": rng.random() < 0.5}
+        if i % 7 == 3:
+            tracegen.make_superset_rank(c, rng, fresh_ids=True)     # a later rank whose vocabulary is the union of all ranks' 
         if i % 6 == 4:
             tracegen.add_idless_sync_record(c, rng)
         if i % 7 == 5:
             tracegen.big_correlation_ids(c, rng)        # ids around 2**31 / 2**32, and two ids that differ by exactly 2**32
+        if i % 11 == 7:
+            _sub_microsecond(c, rng)
         out.append(c)
     return out
+
+
+def _sub_microsecond(case, rng):
+    """fractional time stamps (ns resolution, rounded inward by the loader: C01_round_inward); some device activities begin and end
+    inside one microsecond, so their rounded length is -1; linking and trimming must treat them like any other row"""
+    if case.get("epoch", 0) > 10 ** 12:
+        for rk in case["ranks"].values():
+            for e in rk["events"]:
+                if "ts" in e:
+                    e["ts"] -= case["epoch"]
+        case["epoch"] = 0
+    fr = [0.0, 0.25, 0.5, 0.125, 0.75]
+    for rk in case["ranks"].values():
+        for e in rk["events"]:
+            if isinstance(e.get("ts"), int):
+                e["ts"] = e["ts"] + rng.choice(fr)
+            if isinstance(e.get("dur"), int):
+                if isinstance((e.get("args") or {}).get("stream"), int) and rng.random() < 0.3:
+                    e["ts"] = float(int(e["ts"])) + 0.25
+                    e["dur"] = rng.choice([0.125, 0.25, 0.375])          # [t.25, t.625] at most: ceil(start) = t + 1 > floor(end) = t
+                else:
+                    e["dur"] = e["dur"] + rng.choice(fr)
+    case["fractional"] = True
+
+
+def _rounded(case):
+    """the case as the loader's rounding leaves it (start up, end down; the end is the double sum ts + dur, as in the code)"""
+    import copy
+    import math
+    c = copy.deepcopy(case)
+    for rk in c["ranks"].values():
+        for e in rk["events"]:
+            if "ts" in e and "dur" in e:
+                t, en = math.ceil(e["ts"]), math.floor(float(e["ts"]) + float(e["dur"]))
+                e["ts"], e["dur"] = t, en - t
+            elif "ts" in e:
+                e["ts"] = math.ceil(e["ts"])
+    return c
 
 
 def run_impl(case, d):
@@ -36,7 +83,7 @@ def run_impl(case, d):
 
 
 def coq_term(case, impl):
-    return lc.coq_term(case)
+    return lc.coq_term(_rounded(case) if case.get("fractional") else case)
 
 
 def _is_dev(r):
